@@ -20,8 +20,9 @@ def plan(ctx, tier, seed):
     splits = [(0, 1, 0), (2, 3, 1), (3, 4, 3), (4, 0, 2), (1, 2, 4)] if tier == "quick" else \
              [(w, r, q) for w in range(N + 1) for r in (0, 2, 5, 6) for q in (0, 3, 6)]
     for w, r, q in splits:
-        hs.append(H("C05.K1.rle.rt.w%d.r%d.q%d" % (w, r, q), "C05", src="harness/C05/k1_rle.c", units=[], models=["herr"],
-                    defs={"MODE": 0, "N": N, "W": w, "R": r, "Q": q}, unwind=N + 4, kind="K", timeout=900, mem_gb=14,
+      for phase in (0, 1, 2):
+        hs.append(H("C05.K1.rle.rt.w%d.r%d.q%d.p%d" % (w, r, q, phase), "C05", src="harness/C05/k1_rle.c", units=[], models=["herr"],
+                    defs={"MODE": 0, "N": N, "W": w, "R": r, "R2": min(N, r + 1), "Q": q, "PHASE": phase}, unwind=N + 4, kind="K", timeout=900, mem_gb=14,
                     extra_cc=["-I/verif/harness/C05"], field_sens=16, symbolic="%d data bytes" % N,
                     bound="N=%d; write split/read split/seek target enumerated" % N, group="C05.K1.rle.rt"))
     lim = [(1, 3, 0), (1, 128, 0), (1, 129, 0), (0, 1, 0), (0, 2, 0), (0, 2, 1), (0, 126, 0), (0, 126, 1), (0, 127, 0), (0, 127, 1)]
